@@ -121,6 +121,11 @@ def gen(rng, tier):
         for n in range(1, 5):
             add(f"y ~ ({' + '.join(['a', 'b', 'c', 'd'][:n_atoms])})**{n}", "power")
     add("y ~ (a + b:c)**2", "power")
+    # the factors of a power are ATOMS (a variable and calls on that same variable are different atoms): the order
+    # of the interactions is bounded by the number of terms, not by the number of variable names
+    for e in ["(f(x) + f(x, 2))**2", "(a + f(a) + h(a, k=1))**3", "(a + f(a))**2", "(f(x) + f(x, 2) + h(x, k=1))**3",
+              "(a + b + f(a - b))**3"]:
+        add("y ~ " + e, "power-atoms")
     add("y ~ (a + b + f(x))**3", "power")
     add("y ~ a**2", "power")
     add("y ~ (a:b)**3", "power")
